@@ -123,11 +123,18 @@ def w_schedule(case):
     flag = {'bool': direct, 'np': np.bool_(direct), 'int': int(direct)}[
         case.get('flag', 'bool')]
     m.set_administration(dosed, amount_var=amount, direct=flag)
+    if case.get('route_after'):
+        # the regimen is given while the OTHER route is in place; the final route
+        # is chosen afterwards and keeps the regimen
+        m.set_administration(dosed, amount_var=amount, direct=not direct)
+        apply_regimen(m, case['reg'])
+        m.set_administration(dosed, amount_var=amount, direct=flag)
     if case.get('via') == 'reduced':
         # the regimen is given to the parameter-fixing wrapper (nothing fixed); the
         # wrapper is what is simulated and asked for its regimen
         m = chi.ReducedMechanisticModel(m)
-    apply_regimen(m, case['reg'])
+    if not case.get('route_after'):
+        apply_regimen(m, case['reg'])
     ntr = 3
     lab = '%s/%s/%s %s' % (case['model'], dosed, case['route'], case['reg'])
     t_end = case['t_end']
@@ -414,6 +421,12 @@ def w_dataset(case):
     viol = []
     m = chi.library.ModelLibrary().one_compartment_pk_model()
     m.set_administration('central', direct=True)
+    # (the user's model carries a regimen of its own, which stays the user's)
+    # (not where the final dataset has no dose information: which regimen applies
+    # then is not documented)
+    user_has_regimen = case.get('earlier') != 'nodose'
+    if user_has_regimen:
+        m.set_dosing_regimen(4.0, start=0.3, duration=0.2)
     ctrl = chi.ProblemModellingController(m, [chi.GaussianErrorModel()])
     if case.get('fix_first'):
         # a parameter fixed before the data are given (the controller then holds
@@ -528,6 +541,15 @@ def w_dataset(case):
                          'individual': key, 'expected': exp, 'observed': got,
                          'behaviour': 'dataset_applied'})
         vals_seen[key] = got
+    user_reg = sorted((e.start(), e.duration(), e.level())
+                      for e in m.dosing_regimen().events()) \
+        if m.dosing_regimen() is not None else []
+    if user_has_regimen and (len(user_reg) != 1 or not tol.allclose(
+            np.array(user_reg, dtype=float), np.array([(0.3, 0.2, 20.0)]))):
+        viol.append({'sub': 'user_model', 'message': 'the regimen of the model the '
+                     'user handed to the controller was replaced',
+                     'expected': [(0.3, 0.2, 20.0)], 'observed': user_reg,
+                     'behaviour': 'user_model'})
     return {'transitions': 2 + 4 * len(order), 'outcome': tol.rnd(
         [[(e.start(), e.level()) for e in regs[k].events()] for k in sorted(regs)]
         + [vals_seen[k] for k in sorted(vals_seen)]),
@@ -696,6 +718,10 @@ def build(tier, seed):
                         c2['via'] = 'reduced'
                         c2['sens_seq'] = 'none'
                         sched.append(c2)
+                    if tier == 'thorough' or i % 3 == 0:
+                        c3 = dict(c)
+                        c3['route_after'] = True
+                        sched.append(c3)
                 i += 1
     finals = [None, 0.3, 1.0, 2.0, 2.5, 5.0]
     table = []
